@@ -79,27 +79,27 @@ type Violation struct {
 }
 
 type Stats struct {
-	Scenario     string         `json:"scenario"`
-	Bound        int            `json:"bound"`           // preemption bound of the reported pass; -1 = unbounded
-	Completed    int            `json:"completed_bound"` // highest bound explored completely (-2: none)
-	Exhaustive   bool           `json:"exhaustive"`
-	Execs        int            `json:"executions"`
-	Pruned       int            `json:"pruned"`
-	States       int            `json:"states"`
-	Transitions  int            `json:"transitions"`
-	Points       int            `json:"choice_points"`
-	MaxEnabled   int            `json:"max_enabled"`
-	MaxOps       uint64         `json:"max_hooked_ops_per_execution"`
-	SplitPassRestarts int       `json:"w_restarts_in_split_pass,omitempty"`
-	MaxThreads   int            `json:"max_threads"`
-	Outcomes     int            `json:"distinct_outcomes"`
-	OutcomeHist  map[string]int `json:"-"`
-	Restarts     int            `json:"w_restarts"`
-	TotalRuns    int            `json:"total_runs_including_discovery_passes"`
-	Deadlocks    int            `json:"deadlocks"`
-	WallS        float64        `json:"wall_s"`
-	SampleTraces [][]string     `json:"sample_traces,omitempty"`
-	Note         string         `json:"note,omitempty"`
+	Scenario          string         `json:"scenario"`
+	Bound             int            `json:"bound"`           // preemption bound of the reported pass; -1 = unbounded
+	Completed         int            `json:"completed_bound"` // highest bound explored completely (-2: none)
+	Exhaustive        bool           `json:"exhaustive"`
+	Execs             int            `json:"executions"`
+	Pruned            int            `json:"pruned"`
+	States            int            `json:"states"`
+	Transitions       int            `json:"transitions"`
+	Points            int            `json:"choice_points"`
+	MaxEnabled        int            `json:"max_enabled"`
+	MaxOps            uint64         `json:"max_hooked_ops_per_execution"`
+	SplitPassRestarts int            `json:"w_restarts_in_split_pass,omitempty"`
+	MaxThreads        int            `json:"max_threads"`
+	Outcomes          int            `json:"distinct_outcomes"`
+	OutcomeHist       map[string]int `json:"-"`
+	Restarts          int            `json:"w_restarts"`
+	TotalRuns         int            `json:"total_runs_including_discovery_passes"`
+	Deadlocks         int            `json:"deadlocks"`
+	WallS             float64        `json:"wall_s"`
+	SampleTraces      [][]string     `json:"sample_traces,omitempty"`
+	Note              string         `json:"note,omitempty"`
 }
 
 type Explorer struct {
